@@ -3,6 +3,7 @@ package hsim
 // C13 Requests larger than MaxRequestLength are never processed.
 
 import (
+	"strings"
 	"bufio"
 	"bytes"
 	"context"
@@ -158,7 +159,13 @@ func scenC13(r *Run) {
 						return
 					}
 					if !errors.Is(o.err, core.ErrRequestEntityTooLarge) && (o.err == nil || o.err.Error() != core.ErrRequestEntityTooLarge.Error()) {
-						r.Fail("C13:no-too-large-error:"+kind+":truthful", "limit %d, body %d: the caller got (%d bytes, %v) instead of the request-too-large error", L, size, len(o.resp), o.err)
+						how := ""
+						if o.err != nil && strings.Contains(o.err.Error(), "write") && strings.Contains(o.err.Error(), "closed") {
+							// the server refused on the header and closed; the client's write of the body failed before
+							// its receive loop read the refusal
+							how = ":body-write-failed-on-closed-connection"
+						}
+						r.Fail("C13:no-too-large-error:"+kind+":truthful"+how, "limit %d, body %d: the caller got (%d bytes, %v) instead of the request-too-large error", L, size, len(o.resp), o.err)
 						return
 					}
 				} else {
